@@ -21,7 +21,7 @@ RULE = ('programs of 1-3 base tables (plain tuples, or Row / namedtuple objects 
         'name list / StructType / DDL string, local or RDD; 0-4 rows over columns k,v,w,x,..., ints and None, incl. duplicate column '
         'names) followed by op chains of length <= 4 drawn from 17 operation kinds with parameters taken from '
         'the live column list (plus some absent/ambiguous names); exhaustive part: every chain of length <= 2 over '
-        'a menu of 96 concrete operations (14 of them refer to a column in another letter case than the schema) on two fixed tables (thorough tier: all, quick tier: all of length 1 '
+        'a menu of 99 concrete operations (14 of them refer to a column in another letter case than the schema) on two fixed tables (thorough tier: all, quick tier: all of length 1 '
         'and a seed-dependent sample of length 2); every DataFrame of every program is observed; non-trivial = at '
         'least one operation step executed without error; distinct by canonical JSON of the program')
 ASSUMPTIONS = [
@@ -43,10 +43,10 @@ TRUSTED = ['translator/kernels/c15.py (join field-group tables, pivot / expressi
 # ----------------------------------------------------------------------------------------------
 # instruction encoding (mirrors coq/Run/C15_run.v)
 CREATE, RANGE, SELECT, WITHCOL, DROP, RENAME, TODF, JOIN, CROSS, UNION, UNIONBN, AGG, SORT, LIMIT, DISTINCT, SAMPLE, \
-    REPART, CREATEROWS = range(18)
+    REPART, CREATEROWS, CREATESTRICT = range(19)
 OPNAMES = ['createDataFrame', 'range', 'select', 'withColumn', 'drop', 'withColumnRenamed', 'toDF', 'join',
            'crossJoin', 'union', 'unionByName', 'agg', 'sort', 'limit', 'distinct', 'sample', 'repartition',
-           'createDataFrame(rows)']
+           'createDataFrame(rows)', 'createDataFrame(strict)']
 HOWS = ['inner', 'left', 'right', 'full', 'leftsemi', 'leftanti']
 AGGFNS = ['count', 'sum', 'min', 'max']
 
@@ -130,6 +130,15 @@ class ScriptedSampler:
         return k if self.wr else min(1, k)
 
 
+def strict_struct(names, attrs, mods):
+    """StructType with non-default field attributes; attrs[j]: bit 0 nullable=False, bit 1 metadata,
+    bit 2 IntegerType instead of LongType."""
+    from pysparkling.sql.types import IntegerType
+    StructType, StructField, LongType = mods[3], mods[4], mods[5]
+    return StructType([StructField(n, IntegerType() if a & 4 else LongType(), not a & 1, {'m': n} if a & 2 else None)
+                       for n, a in zip(names, attrs)])
+
+
 def create_rows(ins, spark, mods):
     """createDataFrame over rows that carry their own field names.  flavor % 4: 0 Row(**kw) (own names are
     sorted, as Row sorts them), 1 Row(*names)(*values), 2 collections.namedtuple; +4: handed over as an RDD;
@@ -176,6 +185,9 @@ def exec_step(ins, dfs, spark, mods):
         return spark.range(a, b, s, numPartitions=nparts)
     if op == CREATEROWS:
         return create_rows(ins, spark, mods)
+    if op == CREATESTRICT:
+        _, names, attrs, data = ins
+        return spark.createDataFrame([tuple(r) for r in data], strict_struct(names, attrs, mods))
     df = dfs[ins[1]]
     if op == SELECT:
         return df.select(*['*' if c == STAR else (c[1][1] if c[1][0] == 0 and ins[1] % 2 == 0 else bexpr(c[1], F))
@@ -239,7 +251,7 @@ def flags(ins, fl):
     """(order determined, content determined) of the frame an instruction builds -- mirrors the
     bookkeeping fields ford / fval of coq/Model/Schema.v; returns None when the model declines."""
     op = ins[0]
-    if op in (CREATE, RANGE, CREATEROWS):
+    if op in (CREATE, RANGE, CREATEROWS, CREATESTRICT):
         return (True, True)
     o, v = fl[ins[1]]
     if op in (SELECT, WITHCOL, DROP, RENAME, TODF, SORT):
@@ -314,6 +326,10 @@ def reference_schema(ins, df, dfs, spark, mods):
     names; operations that hand the schema on unchanged return the schema of their (first) operand."""
     StructType, StructField, LongType = mods[3], mods[4], mods[5]
     op = ins[0]
+    if op == CREATESTRICT:
+        return spark.createDataFrame([], strict_struct(ins[1], ins[2], mods)).schema
+    if op == RANGE:
+        return spark.createDataFrame([], StructType([StructField('id', LongType(), True)])).schema
     if op in (CREATE, CREATEROWS):
         cols = [f.name for f in df._jdf.bound_schema.fields]
         ref = spark.createDataFrame([], StructType([StructField(n, LongType(), True) for n in cols]))
@@ -398,11 +414,11 @@ def oracle(case, result):
 def nontrivial(case, result):
     if isinstance(result, Err):
         return False
-    return any(case[i][0] not in (CREATE, RANGE, CREATEROWS) for i in range(len(result[0])))
+    return any(case[i][0] not in (CREATE, RANGE, CREATEROWS, CREATESTRICT) for i in range(len(result[0])))
 
 
 def kind(case):
-    ops = [OPNAMES[i[0]] for i in case if i[0] not in (CREATE, RANGE, CREATEROWS)]
+    ops = [OPNAMES[i[0]] for i in case if i[0] not in (CREATE, RANGE, CREATEROWS, CREATESTRICT)]
     return f'len{len(ops)}:' + (ops[-1] if ops else 'create')
 
 
@@ -411,6 +427,9 @@ def shrink_candidates(case):
     if len(case) > 1:
         yield case[:-1]
     for i, ins in enumerate(case):
+        if ins[0] == CREATESTRICT and len(ins[3]) > 0:
+            for j in range(len(ins[3])):
+                yield case[:i] + [ins[:3] + (ins[3][:j] + ins[3][j + 1:],)] + case[i + 1:]
         if ins[0] == CREATEROWS and len(ins[4]) > 0:
             for j in range(len(ins[4])):
                 yield case[:i] + [ins[:4] + (ins[4][:j] + ins[4][j + 1:],) + ins[5:]] + case[i + 1:]
@@ -433,6 +452,30 @@ T_ROWS = (
      (CREATEROWS, True, ['a', 'b'], ['k', 'v'], [[1, 10], [2, 20], [2, None]], 2 + 16),   # namedtuple, DDL string
      (CREATEROWS, True, ['k', 'v', 'z'], ['k', 'v'], [[1, 10, 0], [2, 20, 0], [2, None, 0]], 0 + 4),  # Row(k=,v=,z=) RDD, struct subset
 )
+
+
+T_A_EMPTY = (CREATE, True, ['k', 'v'], [])
+
+
+def menu_id(s, o):
+    """operations on a range() frame (single column id)"""
+    i = col('id')
+    m = [(SELECT, s, [sx(i)]), (SELECT, s, [STAR, sx(add(i, lit(1)))]), (WITHCOL, s, 'id', lit(1)), (WITHCOL, s, 'n', i),
+         (DROP, s, ['id']), (RENAME, s, 'id', 'k'), (TODF, s, ['k']), (UNION, s, o), (UNION, s, s), (UNIONBN, s, o),
+         (CROSS, s, o), (SORT, s, [(i, False)]), (LIMIT, s, 2), (DISTINCT, s), (SAMPLE, s, False, 1, 0),
+         (SAMPLE, s, True, 1, 2), (REPART, s, 2, []), (REPART, s, 2, [i]),
+         (AGG, s, [], None, [(0, None, None), (1, i, None)], 0), (AGG, s, [i], None, [(0, None, 'count')], 0),
+         (AGG, s, [], None, [(3, i, None)], 1), (AGG, s, [], None, [(2, i, 'm')], 2),
+         (AGG, s, [i], ('id', None), [(1, i, None)], 0), (AGG, s, [i], ('id', None), [(1, i, None), (0, i, None)], 0),
+         (AGG, s, [i], ('id', ['x']), [(1, i, None)], 0), (AGG, s, [], ('id', [1, 2]), [(1, i, None), (0, None, None)], 0)]
+    for how in range(6):
+        m.append((JOIN, s, o, how, ['id']))
+        m.append((JOIN, o, s, how, ['id']))
+    return m
+
+
+T_A_STRICT = (CREATESTRICT, ['k', 'v'], [1, 2], [[1, 10], [2, 20], [2, None]])
+T_B_STRICT = (CREATESTRICT, ['k', 'v'], [3, 5], [[2, 5], [3, 7], [4, 1]])
 
 
 def menu(s, others):
@@ -497,6 +540,9 @@ def menu(s, others):
     m.append((AGG, s, [k], ('v', None), [(0, v, None), sumv], 0))
     m.append((AGG, s, [k], ('v', None), [sumv], 0))
     m.append((AGG, s, [k], ('v', ['x', 'y']), [(1, v, 's')], 0))
+    m.append((AGG, s, [k], ('v', [10, 20]), [sumv], 0))                 # int pivot values, one aggregate
+    m.append((AGG, s, [k], ('v', [20, 5, 20]), [(0, None, 'count')], 0))   # ... aliased, a value listed twice
+    m.append((AGG, s, [], ('k', None), [(3, v, None)], 0))
     m.append((AGG, s, [k], ('v', [10, 99]), [(0, None, None), (3, v, 'm')], 0))
     m.append((AGG, s, [], ('k', [2, 'z']), [sumv, (2, k, None)], 0))
     for keys in ([(k, True)], [(v, False)], [(k, True), (v, False)], [(add(k, v), True)]):
@@ -534,6 +580,15 @@ def exhaustive(rng, tier):
     for tr in T_ROWS:
         for op1 in menu(0, [1]):
             cases.append([tr, T_B, op1])
+    # every operation on an EMPTY frame (no row to infer anything from), as first and as second operand
+    for base in ([T_A_EMPTY, T_B], [T_A_EMPTY, T_A_EMPTY], [(RANGE, 3, 3, 1, 2), T_B],
+                 [(RANGE, 0, 3, -1, 1), (RANGE, 5, 0, 1, 1)]):
+        for op1 in menu(0, [1]) + ([] if base[0][0] != RANGE else menu_id(0, 1)):
+            cases.append(base + [op1])
+    # a StructType with non-nullable / metadata / IntegerType fields as either operand
+    for base in ([T_A, T_B_STRICT], [T_A_STRICT, T_B], [T_A_STRICT, T_B_STRICT]):
+        for op1 in menu(0, [1]):
+            cases.append(base + [op1])
     pairs = [p for p in pairs if ok_for_model(p)]
     if tier == 'quick':
         pairs = rng.sample(pairs, 1700)
@@ -592,12 +647,34 @@ def rand_rows_table(rng):
     return (CREATEROWS, by_struct, own, names, data, flavor)
 
 
+def rand_strict_table(rng):
+    """tuples under a StructType whose fields are not nullable / carry metadata / are IntegerType"""
+    ncol = rng.choice([1, 2, 2, 2, 3])
+    names = rng.sample(NAMES, ncol) if rng.random() > 0.1 else [rng.choice(NAMES[:2]) for _ in range(ncol)]
+    attrs = [rng.choice([1, 1, 1, 3, 5, 7, 0, 2, 4]) for _ in range(ncol)]
+    if not any(a & 1 for a in attrs):
+        attrs[0] |= 1
+    nrow = rng.choice([0, 1, 2, 3, 3, 4])
+    keep_valid = rng.random() < 0.9
+    data = [[rng.choice(VALS[1:] if (a & 1 and keep_valid) else VALS) for a in attrs] for _ in range(nrow)]
+    return (CREATESTRICT, names, attrs, data)
+
+
 def rand_table(rng):
+    if rng.random() < 0.15:
+        return rand_strict_table(rng)
     if rng.random() < 0.22:
         return rand_rows_table(rng)
     if rng.random() < 0.12:
         a = rng.choice([0, 1, -2])
-        return (RANGE, a, a + rng.choice([1, 2, 3, 5]), rng.choice([1, 2]), rng.choice([1, 2, 3]))
+        r = rng.random()
+        if r < 0.6:
+            return (RANGE, a, a + rng.choice([1, 2, 3, 5]), rng.choice([1, 2]), rng.choice([1, 2, 3]))
+        if r < 0.75:
+            return (RANGE, a + rng.choice([1, 3, 4]), a, rng.choice([-1, -2]), rng.choice([1, 2, 3]))   # counting down
+        # empty ranges: a == b, a > b with a positive step, a < b with a negative step (and rarely step 0)
+        return rng.choice([(RANGE, a, a, 1, 1), (RANGE, a + 3, a, 1, 2), (RANGE, a, a + 3, -1, 2), (RANGE, 0, 0, 2, 3),
+                           (RANGE, a, a + 2, 0, 1)])
     ncol = rng.choice([1, 2, 2, 2, 3])
     if rng.random() < 0.2:
         names = [rng.choice(NAMES[:2]) for _ in range(ncol)]
@@ -859,6 +936,8 @@ def extra_checks(rng, tier, workdir):
         t = rand_table(rng)
         if t[0] == CREATEROWS:
             t = (CREATE, True, list(t[3]) or ['k'], [])
+        if t[0] == CREATESTRICT:
+            t = (CREATE, True, list(t[1]), [])
         if t[0] == CREATE and len(t[3]) < 4:
             # enough rows for two independent draws to differ
             w = len(t[3][0]) if t[3] else len(t[2])
